@@ -549,4 +549,23 @@ func checkC04(c *Check) {
 		path, f := r.F.Reach(Query{From: r.Entry(), Inclusive: true, Target: orPt(isPt(store), r.IsSuccessReturn), AvoidEdge: avoid})
 		c.Hold("R4", "start:sender-reject", r.FI.Decl.Pos(), !f && len(store) == 1, "a sender block with a configured reject reply is accepted: "+r.F.Describe(path))
 	}
+
+	// ---- R6: what the rule keys and the envelope addresses are compared by. "Insensitive to letter case and to the
+	// A-label / U-label spelling" is a statement about the two lookup-key functions: every value they return on success
+	// has been IDNA-decoded, NFC-normalised and lower-cased. That is C17's rule R4 (and R3, purity), evaluated here for
+	// the functions the selectors use.
+	c.Rule("R6", "the lookup-key functions the rule tables and the selectors share (address.ForLookup, dns.ForLookup) return only values that passed IDNA decoding, NFC and lower-casing on every path, and read no mutable state (C17.R3/R4)", 4)
+	sub := newCheck("C17", c.P, c.Tier)
+	checkC17(sub)
+	for _, o := range sub.obs {
+		if (o.Rule != "R3" && o.Rule != "R4") || !strings.Contains(o.Key, "ForLookup") {
+			continue
+		}
+		c.Hold("R6", o.Rule+":"+o.Key, o.posRaw, o.OK, o.Msg)
+	}
+	for f := range sub.funcs {
+		if strings.Contains(f, "ForLookup") {
+			c.SawFunc(f)
+		}
+	}
 }
